@@ -40,10 +40,10 @@ def histories_from_graph(g, rng, per_init):
             yield g.states[init]["cfg"], [sorted(g.states[sid]["lastD"]) for _, sid in p], cnt
 
 
-def observe(tc, w, hist, rng):
+def observe(tc, w, hist, rng, layout="far"):
     from harness.tracker_util import animal_pose, run_history
 
-    drift, frames = {}, []
+    drift, frames = {"layout": layout}, []
     for D in hist:
         dets = [dict(a=a, hi=True, pts=animal_pose(a, rng, drift)) for a in D]
         rng.shuffle(dets)
@@ -115,8 +115,9 @@ def run(tier, seed):
                 tc = dict(store=cfg["store"], match=cfg["match"], red=cfg["red"], feat=feat, score=score)
                 if len(traces) % 4 == 3:      # FlowShiftTracker on a static texture (zero optical flow)
                     tc["flow"] = True
-                fr = observe(tc, cfg["w"], hist, rng)
-                traces.append(dict(id=len(traces), mode="C10", cfg=dict(cfg), frames=fr, tc=tc, hist=hist))
+                layout = "diagonal" if len(traces) % 3 == 1 else "far"
+                fr = observe(tc, cfg["w"], hist, rng, layout)
+                traces.append(dict(id=len(traces), mode="C10", cfg=dict(cfg), frames=fr, tc=tc, hist=hist, layout=layout))
     # long walks (scenario class, 60-110 frames): what a track remembers beyond its window must not matter
     from harness.tracker_util import run_history
     n_long = 0
@@ -135,6 +136,7 @@ def run(tier, seed):
                         traces.append(dict(id=len(traces), mode="C10", cfg=cfg, frames=run_history(tc, w, frames), tc=tc, hist=hist, long=layout))
                     n_long += 1
     res.clause("long_walk_histories", n_long)
+    res.clause("histories_with_diagonal_neighbours", sum(1 for t in traces if t.get("layout") == "diagonal"))
     j = judge("Trace_Tracker", [dict(id=t["id"], mode="C10", cfg=t["cfg"], frames=[dict(dets=f["dets"], ret=f["ret"], raised=f["raised"]) for f in t["frames"]]) for t in traces],
               cfg_text=TRACE_CFG, per_shard_min=100, timeout=1500)
     res.add_judge("Trace_Tracker (C10)", j, "histories from TLC's state graph of the scenario class")
@@ -145,7 +147,7 @@ def run(tier, seed):
         fr = int(clause.split("_at_frame_")[1]) if "_at_frame_" in clause else 0
         f = t["frames"][min(fr, len(t["frames"])) - 1]
         res.violation(dict(where="Tracker.track", store=t["tc"]["store"], kind=kind), clause,
-                      dict(tc=t["tc"], w=t["cfg"]["w"], hist=t["hist"], frames=t["frames"], long=t.get("long")),
+                      dict(tc=t["tc"], w=t["cfg"]["w"], hist=t["hist"], frames=t["frames"], long=t.get("long"), layout=t.get("layout", "far")),
                       "%s w=%d hist=%s frame %d: dets=%s ret=%s %s" % (t["tc"], t["cfg"]["w"], t["hist"], fr, f["dets"], f["ret"], f.get("err", "")))
     if j["rejected_n"] > len(j["rejected"]):
         res.coverage["rejections_not_listed"] = j["rejected_n"] - len(j["rejected"])
@@ -203,7 +205,7 @@ def replay(rp, seed):
         from harness.tracker_util import run_history
         fr = run_history(c["tc"], c["w"], walk_frames(c["hist"], c["long"], rng))
     else:
-        fr = observe(c["tc"], c["w"], c["hist"], rng)
+        fr = observe(c["tc"], c["w"], c["hist"], rng, c.get("layout", "far"))
     cfg = dict(store=c["tc"]["store"], match=c["tc"]["match"], red=c["tc"]["red"], w=c["w"])
     j = judge("Trace_Tracker", [dict(id=0, mode="C10", cfg=cfg, frames=[dict(dets=f["dets"], ret=f["ret"], raised=f["raised"]) for f in fr])], cfg_text=TRACE_CFG, shards=1)
     for cid, clause in j["rejected"]:
